@@ -102,6 +102,33 @@ fn check_tree(r: &Report, sub: &str, item: &Item, with_walk: bool) -> (u64, u64)
             }
         }
     }
+    // the item in the middle of the input, skipped on the decoder itself and through a probe of it (the probe ends
+    // at the same absolute position and leaves its parent in place)
+    if item.nodes() <= 4 {
+        buf.clear();
+        buf.extend_from_slice(&[0x82, 0x01, 0x61]);
+        buf.extend_from_slice(&enc);
+        buf.push(0xff);
+        mcx::slot::case("skip-mid-stream", &buf);
+        let res = mcx::par::guard(|| {
+            let mut d = Decoder::new(&buf);
+            d.set_position(3);
+            let (pr, pp) = {
+                let mut p = d.probe();
+                let r = p.skip().map_err(|e| e.to_string());
+                (r, p.position())
+            };
+            let parent_after_probe = d.position();
+            let r = d.skip().map_err(|e| e.to_string());
+            (pr, pp, parent_after_probe, r, d.position())
+        });
+        evals += 2;
+        let want = 3 + enc.len();
+        match res {
+            Ok((Ok(()), pp, 3, Ok(()), dp)) if pp == want && dp == want => {}
+            other => r.fail(sub, None, json!({"item": item.diag(), "input_hex": hex(&buf), "start": 3}), format!("skip() from position 3: (probe result, probe position, parent position after the probe, result, position) = {:?}; the item ends at {}", other, want)),
+        }
+    }
     // every strict prefix is an error
     for k in 0..enc.len() {
         let mut d = Decoder::new(&enc[..k]);
